@@ -198,6 +198,8 @@ def gen_cases(rec, rng, tier):
         yield {'kind': 'nfa', 'cls': 'enum_nfa', 'ref': R, 'ns': ns, 'eps': ('', '_')[i % 2], 'container': adapt.NFA_KINDS[i % 4]}
     for t in common.shard_slice(rxg.enum_trees(5), rec):
         yield {'kind': 'rx', 'cls': 'enum_tree', 'ref': t, 'ns': ns}
+    for t in common.shard_slice(rxg.enum_trees(5, rxg.LEAVES01), rec):
+        yield {'kind': 'rx', 'cls': 'enum_tree_digit_symbols', 'ref': t, 'ns': ns}
     for RG in common.shard_slice(cfgg.enum_grammars(2), rec):
         yield {'kind': 'cfg', 'cls': 'enum_grammar', 'ref': RG, 'ns': ns}
     # hostile families
@@ -228,6 +230,9 @@ def gen_cases(rec, rng, tier):
         t = rxg.random_tree(rng, rng.randint(3, 7), 'ab', bias=rng.choice([None, 'star', 'unit']))
         if rx.size_iter(t) <= 25:
             yield {'kind': 'rx', 'cls': 'random_tree', 'ref': t, 'ns': ns}
+        t = rxg.random_tree(rng, rng.randint(3, 6), '01', bias=rng.choice([None, 'star', 'unit']))
+        if rx.size_iter(t) <= 25:
+            yield {'kind': 'rx', 'cls': 'random_tree_digit_symbols', 'ref': t, 'ns': ns}
         RG = cfgg.random_grammar(rng, rng.randint(1, 5), rng.randint(1, 8), max_rhs=rng.choice([2, 3, 4]), nt=rng.randint(1, 2))
         yield {'kind': 'cfg', 'cls': 'random_grammar', 'ref': RG, 'ns': ns}
         RG = cfgg.random_cnf(rng, rng.randint(1, 5), rng.randint(0, 6), nt=rng.randint(1, 2))
